@@ -21,7 +21,7 @@ ASSUMPTIONS = [
 BOUNDS = {'quick': 'about 2.6k parameter vectors x 10 separations x 4 routes', 'thorough': 'adds denser lattices (all pairs/triples of the value sets) and 24 separations'}
 
 R_QUICK = [0.05, 0.3, 0.8, 1.0, 1.6, 2.5, 4.0, 7.5, 12.0, 30.0, 1, 2, 7]       # (integer-typed separations as well)
-R_THOROUGH = sorted(set(R_QUICK + [0.1, 0.2, 0.45, 0.65, 0.9, 1.25, 2.0, 3.0, 3.4, 5.0, 6.5, 9.0, 10.0, 15.0, 20.0, 25.0]))
+R_THOROUGH = sorted(set(R_QUICK + [0.1, 0.2, 0.45, 0.65, 0.9, 1.25, 2.0, 3.0, 3.4, 5.0, 6.5, 9.0, 10.0, 15.0, 20.0, 25.0] + [0.07 * k for k in range(1, 60)] + [4.0 + 0.53 * k for k in range(1, 40)]))
 
 
 def lattice(tier):
@@ -65,6 +65,20 @@ def lattice(tier):
         P['lj'] = list(itertools.product([-0.5, 0, 0.2, 12, 1], [0.5, 2.5, 3.4, -1.5, 1, 2]))
         P['coul'] = list(itertools.product(q + [-1, 3], q + [-1, 3]))
         P['zbl'] = list(itertools.product(z + [2, 26, 54], z + [2, 26, 54]))
+        h2 = h + [-45.5, 1e-3, 7, 120.0]
+        P['hbnd'] = list(itertools.product(h2, h2))
+        P['exponential'] = list(itertools.product([-1.5, 0, 2.0, 300.0, -1, -2, 1e-3, 0.5, 7], [-6, -1, -2, 0, 1, 2, 3.5, 3, -2.5, 0.5, 4, 5, 6, -0.5, 12]))
+        P['tang_toennies'] = list(itertools.product([41.96, 0, -3.0, 1.0], [2.523, 1.2, 0.7], [1.461, 0, -2.0], [14.11, 0, 3.0], [183.6, 0, -50.0]))
+        P['constant'] = [(c,) for c in (-2.5, 0, 0.3, 1e6, 7, -1, -2, -1.0, -2.0, 1e-12, -1e12, 3, 0.1)]
+        P['sqrt'] = [(g,) for g in (-3.0, 0, 0.5, 40.0, 2.25, -1, -2, 1e-6, 1e6, 3)]
+        q2 = q + [-0.5, 2, 1e-3, 10]
+        P['coul'] = list(itertools.product(q2 + [-1, 3], q2 + [-1, 3]))
+        P['exp_spline'] = P['exp_spline'] + [tuple(v * s_ for v in vec[:6]) + (vec[6] * s_,) for vec in P['exp_spline'][:4] for s_ in (0.5, -1.0, 2.0)]
+        more = []
+        for vec in polys:
+            more.append(tuple(-v for v in vec))
+            more.append(tuple(v * 0.5 for v in vec))
+        P['polynomial'] = polys + more
     return P
 
 
